@@ -147,6 +147,8 @@ class Dropout(nn.Module):
             >>> y = layer(x)
         """
         super().__init__()
+        if p < 0 or p > 1:
+            raise ValueError(f"dropout probability has to be between 0 and 1, but got {p}")
         self.p = p
         
     def forward(self, x: Tensor) -> Tensor:
